@@ -188,6 +188,44 @@ func c07Rules(p *core.Prog, r *core.Run) {
 	r.Check("C07.B3", "Read:deferred-error-returns", nErrRet >= 2, p.Pos(rd.Pos()), "the deferred error is returned with the last bytes and on the following call (%d returns)", nErrRet)
 	r.Floor("C07.B3", 5)
 
+	// B3 in the record reader itself: whatever was read before an error is returned with it
+	if rr != nil {
+		var fulls []*ssa.Call
+		for _, s := range callSites(p, []*ssa.Function{rr}, `io\.ReadFull`) {
+			fulls = append(fulls, s.Instr.(*ssa.Call))
+		}
+		for i, ret := range core.Returns(rr) {
+			v := p.X(ret.Results[0])
+			// expected: buffer[:sum of the counts of the ReadFull calls that precede this return]
+			var want []ssa.Value
+			for _, f := range fulls {
+				if core.Before(f, ret) {
+					want = append(want, f)
+				}
+			}
+			ok := v.Op == "slice" && v.Args[1].Name == "_"
+			if ok {
+				hi := v.Args[2]
+				got := map[ssa.Value]bool{}
+				hi.Walk(func(e *core.Expr) bool {
+					if e.Op == "ext" && e.Name == "#0" && e.Args[0].Name == "io.ReadFull" {
+						got[e.Args[0].Val] = true
+					}
+					return e.Op == "bin" && e.Name == "+" || e.Op == "ext"
+				})
+				for _, w := range want {
+					if !got[w] {
+						ok = false
+					}
+				}
+				if len(got) != len(want) {
+					ok = false
+				}
+			}
+			r.Check("C07.B3", fmt.Sprintf("readRecord:return#%d", i), ok, p.InstrPos(ret), "the record reader returns, also with an error, every byte it has read so far (buffer[:n] after the header read, buffer[:n+nn] after the body read): %s", short(v))
+		}
+	}
+
 	// --- B4
 	wr := m.write
 	for i, ret := range core.Returns(wr) {
